@@ -171,6 +171,11 @@ static long one_run(const std::string &prof, uint64_t seed, const JV *replay, Ag
     std::string ck; if (const dnsref::RR *o = t.msg.opt()) { ck = "opt"; for (auto &op : o->opts) if (op.code == 10) ck = "ck=" + hexs(op.data); } else ck = "noopt";
     fprintf(stderr, "TX t=%lld fd=%d srv=%d %s %s type=%d attempt=%d beh=%s off=%zu len=%zu %s src=%s\n", (long long)t.t, t.fd, t.server, t.tcp ? "tcp" : "udp", t.qname_lc.c_str(), t.msg.qd.empty() ? -1 : t.msg.qd[0].type, t.attempt, beh_name[t.behaviour], t.stream_off, t.wire.size(), ck.c_str(), t.src_ip.c_str());
   }
+  if (getenv("SIM_DUMP_RESP")) for (auto &r : W.resps) {
+    std::string ck; if (const dnsref::RR *o = r.msg.opt()) { ck = "opt"; for (auto &op : o->opts) if (op.code == 10) ck = "ck=" + hexs(op.data); } else ck = "noopt";
+    std::string rt; for (size_t i = 0; i < r.read_times.size(); i++) rt += " read@" + std::to_string(r.read_times[i]) + "/seq" + std::to_string(i < r.read_seqs.size() ? r.read_seqs[i] : 0);
+    fprintf(stderr, "RESP #%d tx=%d srv=%d %s fd=%d forged=%d variant=%d defect=%d acceptable=%d rcode=%d tc=%d len=%zu %s%s %s\n", r.id, r.tx, r.server, r.tcp ? "tcp" : "udp", r.fd, (int)r.forged, r.forge_variant, r.defect, r.acceptable, r.rcode, (int)r.tc, r.wire.size(), ck.c_str(), rt.c_str(), r.unacceptable_why.c_str());
+  }
   if (getenv("SIM_DUMP_CALLS")) {
     FILE *f = fopen(getenv("SIM_DUMP_CALLS"), "w");
     if (f) { for (auto &c : W.calls) fprintf(f, "%u t=%lld tid=%d call=%d fd=%d res=%ld err=%d a=%ld b=%ld\n", c.seq, (long long)c.t, c.tid, c.call, c.fd, c.res, c.err, c.a, c.b); fclose(f); }
